@@ -143,7 +143,7 @@ func quickEdit(desc string) bool {
 	switch {
 	case strings.HasPrefix(desc, "delete "), strings.HasSuffix(desc, " to null"), strings.HasPrefix(desc, "set "), strings.HasPrefix(desc, "add $ref \"#/definitions/Nope"), strings.HasPrefix(desc, "add patternProperties"):
 		return true
-	case strings.HasPrefix(desc, "rename ") && strings.Contains(desc, `/default to "example"`), strings.HasPrefix(desc, "add type string to the body"), strings.HasPrefix(desc, "add additionalItems"), strings.HasPrefix(desc, "retarget "), strings.HasPrefix(desc, "add member X-Foo") && strings.Count(desc, "/") <= 5:
+	case strings.HasPrefix(desc, "rename ") && strings.Contains(desc, `/default to "example"`), strings.HasPrefix(desc, "add type string to the body"), strings.HasPrefix(desc, "add additionalItems"), strings.HasPrefix(desc, "retarget "), strings.HasPrefix(desc, "delete items and add a format"), strings.HasPrefix(desc, "add member X-Foo") && strings.Count(desc, "/") <= 5:
 		return true
 	case strings.HasPrefix(desc, "rename ") && (strings.HasSuffix(desc, `to "id"`) || strings.HasSuffix(desc, `to "a.a"`) || strings.HasSuffix(desc, `to ""`)):
 		return true
